@@ -303,7 +303,7 @@ def run_shard(spec, rec):
                for k, v in dict(val).items()}
         rec.count("cache_entries_audited")
         if got != want:
-            rec.violation("cache-wrong", {"key": str(key), "cached": str(val),
+            rec.violation("cache-wrong", {"key": repr(dict(key)), "cached": repr(dict(val)),
                                           "model": {k: str(v) for k, v in want.items()}},
                           workload=kind)
 
